@@ -151,6 +151,15 @@ let parse_prec (s : string) : prec * reference list option =
               | "M" -> matrix | "X" -> [IXX]
               | c when String.length c >= 2 && c.[0] = 'R' ->
                   [ref_item (List.nth refs (int_of_string (String.sub c 1 (String.length c - 1))))]
+              | c when String.length c >= 1 && c.[0] = 'c' ->
+                  (match List.map bytes_of_hex (String.split_on_char '.' (String.sub c 1 (String.length c - 1))) with
+                   | t :: ts -> [ICC (t, ts)]
+                   | [] -> failwith "cc")
+              | c when String.length c >= 1 && c.[0] = 'd' ->
+                  (match String.split_on_char '.' (String.sub c 1 (String.length c - 1)) with
+                   | [d; m; y; k; a] ->
+                       [IDT (bytes_of_string d, bytes_of_string m, bytes_of_string y, k = "c", bytes_of_hex a)]
+                   | _ -> failwith "dt")
               | c when String.length c >= 2 && c.[0] = 's' ->
                   let k = (match c.[1] with 'a' -> KBA | 's' -> KBS | 'f' -> KBF | _ -> KCO) in
                   [ISkip (k, bytes_of_hex (String.sub c 2 (String.length c - 2)))]
